@@ -57,6 +57,16 @@ def check_matrix_calls(ctx, A, facts, tg, small, B=None, x=None, fresh=True):
             r = linalg.lu_factor(fmat(A), fmat(B))
             if not close_seq(r, X, TOL):
                 ctx.violate("linalg.lu_factor", tg, small, {"expected": fl(X), "got": r})
+            # the result of the PREVIOUS call (another system of the same or another size) is still what it was when returned
+            prev = HELD.get("lu_factor")
+            if prev is not None and not close_seq(prev[0], prev[1], TOL):
+                ctx.violate("linalg.lu_factor", tg + ["earlier_result_overwritten"], small, {"earlier_expected": fl(prev[1])[:2], "earlier_now": prev[0][:2]})
+            HELD["lu_factor"] = (r, X)
+            ri = linalg.matrix_inverse(fmat(A))
+            prev = HELD.get("inverse")
+            if prev is not None and not close_seq(prev[0], prev[1], TOL):
+                ctx.violate("linalg.matrix_inverse", tg + ["earlier_result_overwritten"], small, {})
+            HELD["inverse"] = (ri, [list(q) for q in ri])
         except ZeroDivisionError:
             pass
         except Exception as e:
@@ -75,6 +85,9 @@ def check_matrix_calls(ctx, A, facts, tg, small, B=None, x=None, fresh=True):
                 ctx.violate("linalg.lu_solve", tg + ["raises"], small, {"exception": "ZeroDivisionError although all leading principal minors are non-zero"})
         except Exception as e:
             ctx.violate("linalg.lu_solve", tg + ["raises"], small, {"exception": repr(e)[:200]})
+
+
+HELD = {}
 
 
 def check_case(ctx, cs):
